@@ -1,7 +1,7 @@
 SPECIFICATION Spec
 CONSTANT Configs <- ConfigsFull
 CONSTANT RandVals <- RandValsSmall
-CONSTANT K = 2
+CONSTANT K = 1
 CONSTANT defaultInitValue = 0
 INVARIANT InvP1
 INVARIANT InvP2
